@@ -417,6 +417,19 @@ def debug_exc(exc):
     return message
 
 
+def _quote_edge_blanks(value):
+    """
+    Return the header field value with its leading and trailing blanks
+    %-escaped (a HTTP receiver strips white space around a field value).
+    """
+    stripped = value.strip(' ')
+    if stripped == value:
+        return value
+    lead = len(value) - len(value.lstrip(' '))
+    trail = len(value) - lead - len(stripped)
+    return '%20' * lead + stripped + '%20' * trail
+
+
 def wbem_request(conn, req_data, cimxml_headers, target_type='server'):
     """
     Send an HTTP or HTTPS request to a WBEM server or WBEM listener and return
@@ -483,10 +496,12 @@ def wbem_request(conn, req_data, cimxml_headers, target_type='server'):
     }
     # Two-step encoding of the CIM-XML extension header values required by
     # DSP0200: UTF-8, then %-escaping of everything that is not printable
-    # ASCII (and of the escape character itself).
+    # ASCII (and of the escape character itself). A blank at the begin or end
+    # of the value is escaped as well, because white space around a HTTP
+    # header field value is not part of the value (RFC 7230, 3.2.4).
     req_headers.update(
-        {name: urllib.parse.quote(
-            value, safe=" !\"#$&'()*+,-./:;<=>?@[\\]^_`{|}~")
+        {name: _quote_edge_blanks(urllib.parse.quote(
+            value, safe=" !\"#$&'()*+,-./:;<=>?@[\\]^_`{|}~"))
          for name, value in cimxml_headers})
 
     if target_type == 'server' and conn.creds is not None:
